@@ -84,6 +84,34 @@ SEEDS = {
               ["./blob/..."], ["-run", "TestC11_MixedShareVersionsInOneNamespace", "./blob/"]),
     "C11-2": ("C11/change2", "C11", [("demo/c11_blob_after_padding_index_test.go", "blob/c11_blob_after_padding_index_test.go")],
               ["./blob/..."], ["-run", "TestC11_BlobAfterPaddedBlobInSameRow", "./blob/"]),
+    "C07-3": ("C07/r2change1", "C07", [('demo/c07_crash_put_test.go', 'store/c07_crash_put_test.go')],
+              ['./store/...'], ['-run', 'TestC07', './store/']),
+    "C07-4": ("C07/r2change2", "C07", [('demo/c07_crash_q4_test.go', 'store/c07_crash_q4_test.go')],
+              ['./store/...'], ['-run', 'TestC07KilledDuringQ4WriteThenReput', './store/']),
+    "C08-3": ("C08/r2change1", "C08", [('demo/seeded_c08_change1_test.go', 'store/seeded_c08_change1_test.go')],
+              ['./store/...'], ['-run', 'TestSeededC08_Change1', './store/']),
+    "C08-4": ("C08/r2change2", "C08", [('demo/seeded_c08_change2_test.go', 'store/seeded_c08_change2_test.go')],
+              ['./store/...'], ['-run', 'TestSeededC08_Change2', './store/']),
+    "C04-3": ("C04/r2change1", "C04", [('demo/c04_change1_demo_test.go', 'das/c04_change1_demo_test.go')],
+              ['./das/'], ['-run', 'TestC04Change1_CheckpointCoversWorkerFirstHeight', './das/']),
+    "C04-4": ("C04/r2change2", "C04", [('demo/c04_change2_demo_test.go', 'das/c04_change2_demo_test.go')],
+              ['./das/'], ['-run', 'TestC04Change2_HeadAnnouncedWhileRecentLimitReached', './das/']),
+    "C18-3": ("C18/r2change2", "C18", [('demo/shwap/zz_c18_change2_demo_test.go', 'share/shwap/zz_c18_change2_demo_test.go'), ('demo/bitswap/zz_c18_change2_bitswap_demo_test.go', 'share/shwap/p2p/bitswap/zz_c18_change2_bitswap_demo_test.go')],
+              ['./share/shwap/'], ['-run', 'TestC18Change2', './share/shwap/', './share/shwap/p2p/bitswap/']),
+    "C12-3": ("C12/r2change1", "C12", [('demo/seeded_c12_change1_test.go', 'blob/seeded_c12_change1_test.go')],
+              ['./blob/...'], ['-run', 'TestSeededC12Change1', './blob/']),
+    "C12-4": ("C12/r2change2", "C12", [('demo/seeded_c12_change2_test.go', 'blob/seeded_c12_change2_test.go')],
+              ['./blob/...'], ['-run', 'TestSeededC12Change2', './blob/']),
+    "C02-3": ("C02/r2change1", "C02", [('demo/zz_c02_change1_demo_test.go', 'share/shwap/p2p/bitswap/zz_c02_change1_demo_test.go')],
+              ['./share/availability/light/'], ['-run', 'TestC02Change1_DuplicateFetchNeverSucceedsWithUnverifiedRow', './share/shwap/p2p/bitswap/']),
+    "C02-4": ("C02/r2change2", "C02", [('demo/zz_c02_change2_demo_test.go', 'share/shwap/p2p/bitswap/zz_c02_change2_demo_test.go')],
+              ['./share/availability/light/'], ['-run', 'TestC02Change2_RejectedRowNamespaceDataIsNotKept', './share/shwap/p2p/bitswap/']),
+    "C09-3": ("C09/r2change2", "C09", [('demo/c09_change2_demo_test.go', 'share/shwap/p2p/shrex/c09_change2_demo_test.go')],
+              ['./share/shwap/p2p/shrex/'], ['-run', 'TestC09Change2_AccessorReleasedWhenMemoryBudgetExhausted', './share/shwap/p2p/shrex/']),
+    "C01-3": ("C01/r2change1", "C01", [('demo/sample_block_seed_test.go', 'share/shwap/p2p/bitswap/sample_block_seed_test.go')],
+              ['./share/availability/light/'], ['-run', 'TestSeed_SampleRejectedOnceStaysRejected', './share/shwap/p2p/bitswap/']),
+    "C01-4": ("C01/r2change2", "C01", [('demo/range_namespace_data_seed_test.go', 'share/shwap/range_namespace_data_seed_test.go')],
+              ['./share/shwap/'], ['-run', 'TestSeed_RangeLastRowBorrowedFromNeighbouringRange', './share/shwap/']),
     "C06-1": ("C06/change1", "C06", [("demo/sample_unverified_demo_test.go", "share/shwap/p2p/bitswap/sample_unverified_demo_test.go")],
               ["./share/shwap/p2p/bitswap/"], ["-run", "TestDemo_GetSamples", "./share/shwap/p2p/bitswap/"]),
     "C06-2": ("C06/change2", "C06", [("demo/eds_retry_demo_test.go", "share/shwap/p2p/shrex/shrex_getter/eds_retry_demo_test.go")],
